@@ -872,18 +872,32 @@ def oracle(ctx: Ctx, budget: str):
         rt = importlib.import_module("grid.rtransform")
         ag = importlib.import_module("grid.atomgrid")
         rg = rt.BeckeRTransform(1e-3, 1.5).transform_1d_grid(od.GaussLegendre(6))
-        at = ag.AtomGrid(rg, degrees=[5])
-        fv = np.exp(-at.points[:, 0] ** 2 - 0.5 * (at.points[:, 1] - 0.2) ** 2 - at.points[:, 2] ** 2) * (1 + at.points[:, 0])
-        cs = [[0.1, -0.2, 0.3], [0.0, 0.0, 0.0]]
-        for ty in TYPES:
-            vals, orders = at.moments(2, np.array(cs), fv, type_mom=ty, return_orders=True)
-            orders = np.asarray(orders)
-            orders = orders.reshape(-1, 1) if orders.ndim == 1 else orders
-            for k, order in enumerate(orders):
-                for ci, cen in enumerate(cs):
-                    want, scale = direct(ty, [int(x) for x in order], at.points.tolist(), at.weights.tolist(), fv.tolist(), cen)
-                    if not close(float(vals[k][ci]), want, rtol=1e-9, scale=scale + 1e-300):
-                        ctx.fail("oracle", f"basegrid.moments:{ty}:atomgrid", f"AtomGrid row {k} {order.tolist()} centre {ci}: {float(vals[k][ci])!r} vs direct {want!r}")
+        # grids whose `points` is derived from what they store: an atomic grid away from the origin (it stores the points
+        # relative to its centre), rotated; a two-atom molecular grid; and the origin-centred atomic grid
+        from grid.molgrid import MolGrid
+        from grid.becke import BeckeWeights
+        ctr = np.array([_r(ctx.rng.uniform(-1.5, 1.5)) for _ in range(3)])
+        at0 = ag.AtomGrid(rg, degrees=[5])
+        at1 = ag.AtomGrid(rg, degrees=[5], center=ctr, rotate=ctx.rng.randrange(1, 1000))
+        at2 = ag.AtomGrid(rg, degrees=[3], center=-ctr)
+        mol = MolGrid(np.array([1, 8]), [at1, at2], BeckeWeights(order=3), store=bool(ctx.rng.randrange(2)))
+        for name, at, c0 in (("AtomGrid at the origin", at0, np.zeros(3)), (f"AtomGrid(center={ctr.tolist()}, rotated)", at1, ctr),
+                             ("MolGrid of two off-origin atoms", mol, ctr)):
+            P = np.asarray(at.points, dtype=float)
+            q = P - c0
+            fv = np.exp(-q[:, 0] ** 2 - 0.5 * (q[:, 1] - 0.2) ** 2 - q[:, 2] ** 2) * (1 + q[:, 0])
+            cs = [[0.1, -0.2, 0.3], [0.0, 0.0, 0.0]]
+            for ty in TYPES:
+                vals, orders = at.moments(2, np.array(cs), fv, type_mom=ty, return_orders=True)
+                orders = np.asarray(orders)
+                orders = orders.reshape(-1, 1) if orders.ndim == 1 else orders
+                ctx.tagc("oracle:moments:library-grid")
+                for k, order in enumerate(orders):
+                    for ci, cen in enumerate(cs):
+                        want, scale = direct(ty, [int(x) for x in order], P.tolist(), np.asarray(at.weights, dtype=float).tolist(), fv.tolist(), cen)
+                        if not close(float(vals[k][ci]), want, rtol=1e-9, scale=scale + 1e-300):
+                            ctx.fail("oracle", f"basegrid.moments:{ty}:atomgrid", f"{name}: row {k} {order.tolist()} centre {ci}: {float(vals[k][ci])!r} vs direct quadrature over grid.points {want!r}",
+                                     witness={"grid": name, "type_mom": ty, "order": order.tolist(), "center": cen})
     except ImportError:
         pass
     # 1-D grids of the library have a one-dimensional point array (N,)
